@@ -11,6 +11,9 @@ CONSTANTS
   WildcardsFirst = TRUE
   LastGlobWins = TRUE
   LeadingStarZero = FALSE
+  Umbrella = FALSE
+  UVal = "p"
+  UmbrellaAfterConfig = TRUE
 INVARIANT TypeOK
 INVARIANT ClassesAgree
 INVARIANT MatchAgree
